@@ -31,6 +31,7 @@ def solve_one_contract(variant, ca_target, extra_inv, extra_ens):
             ("C17.choices", f"{dstat(CH)} == choices"),
             ("C17.passes", "bc_calls == choices + bt"),
             ("C17.depth", f"statistics[{DEPTH}] >= stacks_top[0] and statistics[{DEPTH}] >= old(statistics)[{DEPTH}]"),
+            ("C01.within_root", f"implies(old(stacks_top)[0] == 0, forall(l, 0, stacks_top[0] + 1, forall(d, 0, D, {SS0}[0, d, MIN] <= {SS}[l, d, MIN] and {SS}[l, d, MAX] <= {SS0}[0, d, MAX])))"),
         ] + extra_inv)},
         ensures=[
             ("C01.solution", "implies(result is not None, forall(v, 0, V, result[v] == shr_domains_stack[stacks_top[0], dom_indices_arr[v], MIN] + dom_offsets_arr[v]))"),
@@ -39,6 +40,8 @@ def solve_one_contract(variant, ca_target, extra_inv, extra_ens):
             ("C17.choice_count", f"{dstat(CH)} == choices"),
             ("C17.conservation", "bc_calls == 1 + choices + ite(result is not None, bt, bt - 1)"),
             ("C02.exhausted", "implies(result is None, stacks_top[0] == 0)"),
+            ("C01.in_domain", f"implies(old(stacks_top)[0] == 0 and result is not None, forall(v, 0, V, {SS0}[0, dom_indices_arr[v], MIN] + dom_offsets_arr[v] <= result[v] and result[v] <= {SS0}[0, dom_indices_arr[v], MAX] + dom_offsets_arr[v]))"),
+            ("C17.depth_mono", f"statistics[{DEPTH}] >= old(statistics)[{DEPTH}]"),
             ("wf.post", f"stacks_top[0] < H and statistics[{DEPTH}] >= stacks_top[0]"),
         ] + extra_ens,
         tags={"C01": ["C01"], "C17": ["C17"], "C02": ["C02"], "wf": ["C16", "C19"], "C09": ["C09"], "DomHeuristic": ["C19", "C09"]},
